@@ -37,15 +37,26 @@ Definition ec_accept (c : Z * Z * Z * Z) (sq : bool) (pt : list Z) : bool :=
   let '(p, _, _, flen) := c in
   let n := Z.to_nat (Z.min flen 128) in
   match pt with
-  | 4 :: r =>
-      Nat.eqb (length r) (2 * n) && bytes_ok r &&
-      (let x := be_decode (firstn n r) in
-       let y := be_decode (skipn n r) in
-       (x <? p) && (y <? p) && on_curve c x y)
-  | t :: r =>
-      ((t =? 2) || (t =? 3)) && Nat.eqb (length r) n && bytes_ok r && (be_decode r <? p) && sq
   | [] => false
+  | t :: r =>
+      if t =? 4 then
+        Nat.eqb (length r) (2 * n) && bytes_ok r &&
+        (let x := be_decode (firstn n r) in
+         let y := be_decode (skipn n r) in
+         (x <? p) && (y <? p) && on_curve c x y)
+      else
+        ((t =? 2) || (t =? 3)) && Nat.eqb (length r) n && bytes_ok r && (be_decode r <? p) && sq
   end.
+
+(* a point with abscissa x exists on the curve *)
+Definition has_root (c : Z * Z * Z * Z) (x : Z) : Prop :=
+  let '(p, _, _, _) := c in exists y, 0 <= y < p /\ (y * y) mod p = curve_rhs c x.
+
+(* bs is a valid SEC1 encoding (uncompressed, or compressed 02/03) of an affine point of the curve:
+   the residuosity bit of ec_accept is replaced by the existence of the ordinate *)
+Definition ec_valid (c : Z * Z * Z * Z) (bs : list Z) : Prop :=
+  ec_accept c false bs = true \/
+  (ec_accept c true bs = true /\ exists t r, bs = t :: r /\ has_root c (be_decode r)).
 
 (* ---- handlers ----------------------------------------------------------------------------- *)
 (* what a handler run depends on: the peer value v read by get_mpint, the modulus p, the X25519
@@ -107,6 +118,19 @@ Definition event_eqb (a b : event) : bool :=
   end.
 Definition emits (e : event) (ss : list kstep) : bool :=
   existsb (fun s => match s with KEmit e' => event_eqb e e' | _ => false end) ss.
+
+(* the ECDH handlers over an ARBITRARY library: `decode` is from_encoded_point (None = it raised),
+   `exch` is private_key.exchange(ec.ECDH(), point) (None = it raised); the generated step list
+   applies exch only after decode succeeded, to the decoded point *)
+Definition ec_env {point : Type} (decode : list Z -> option point) (exch : point -> option (list Z))
+           (bs : list Z) : env :=
+  mkenv 0 0 []
+        (match decode bs with Some _ => true | None => false end)
+        (match decode bs with
+         | Some P => match exch P with Some _ => true | None => false end
+         | None => false
+         end)
+        true.
 
 (* ---- canonical encodings for the correspondence run ---------------------------------------- *)
 Definition event_code (e : event) : Z :=
